@@ -1,0 +1,38 @@
+//! Thin public wrappers around crate-private items, for verification harnesses.
+//!
+//! Only compiled with the `verif_hooks` feature. No logic lives here.
+
+use filetime::FileTime;
+use jiff::Timestamp;
+
+use crate::entry::KindMeta;
+use crate::index::entry::IndexEntry;
+use crate::unix_time::ToFileTime;
+use crate::{Apath, Owner, UnixMode, source};
+
+/// Build a source entry as the source walk would.
+pub fn source_entry(
+    apath: Apath,
+    kind_meta: KindMeta,
+    mtime: Timestamp,
+    unix_mode: UnixMode,
+    owner: Owner,
+) -> source::Entry {
+    source::Entry {
+        apath,
+        kind_meta,
+        mtime,
+        unix_mode,
+        owner,
+    }
+}
+
+/// `IndexEntry::metadata_from`.
+pub fn index_entry_metadata_from(source: &source::Entry) -> IndexEntry {
+    IndexEntry::metadata_from(source)
+}
+
+/// `ToFileTime::to_file_time` for `Timestamp`.
+pub fn timestamp_to_file_time(t: &Timestamp) -> FileTime {
+    t.to_file_time()
+}
